@@ -3483,6 +3483,7 @@ fn validate_extension_declarations(
     extensions: Vec<ExpirationExtension2>,
 ) -> Result<ExtendExpirationsInner, ActorError> {
     let mut claim_space_by_sector = BTreeMap::<SectorNumber, (u64, u64)>::new();
+    let mut seen_claim_ids = BTreeSet::<ext::verifreg::ClaimID>::new();
 
     for decl in &extensions {
         let policy = rt.policy();
@@ -3504,6 +3505,15 @@ fn validate_extension_declarations(
             let first_drop = sc.maintain_claims.len();
 
             for (i, claim) in claims.iter().enumerate() {
+                // each claim may be declared only once: its space is counted once per mention
+                if !seen_claim_ids.insert(all_claim_ids[i]) {
+                    return Err(actor_error!(
+                        illegal_argument,
+                        "failed to validate declaration sector={}, claim={} declared more than once",
+                        sc.sector_number,
+                        all_claim_ids[i]
+                    ));
+                }
                 // check provider and sector matches
                 if claim.provider != rt.message().receiver().id().unwrap() {
                     return Err(actor_error!(
